@@ -244,10 +244,8 @@ func (p c04) RunBatch(c *fw.Ctx) {
 	for i := 0; i < m; i++ {
 		g := gt.NewGen(c.Rng)
 		stmts := g.Program(3+c.Rng.IntN(8), 1+c.Rng.IntN(3))
-		ref := gt.NewRef()
-		ref.Run(stmts)
-		if ref.Exhausted || ref.BigInPlace {
-			continue
+		if !refSessionUsable(stmts) {
+			continue // non-terminating, or in the region of the aliasing finding (C06) where values may even become cyclic
 		}
 		rr := &gt.Renderer{}
 		var in []string
